@@ -124,6 +124,17 @@ func c12Scenario(res *ev.Result, unit string, seed uint64, pinned bool) {
 			}
 		}
 		burstNo++
+		if burstNo%3 == 0 && len(sts) >= 2 {
+			// trees are independent also while their iterations are nested in one another
+			i, j := r.Intn(len(sts)), r.Intn(len(sts))
+			if i != j && sts[i].Len() > 0 && !sts[i].Dead() && !sts[j].Dead() {
+				sts[j].AbandonDescending()
+				sts[i].IterNested(r.Intn(sts[i].Len()), func() { sts[j].IterNested(-1, nil) })
+				if sts[i].Dead() || sts[j].Dead() {
+					return
+				}
+			}
+		}
 		if pinned && burstNo%6 == 0 {
 			// bound the harness's own garbage (dumps, histories); the pools refill at once
 			runtime.GC()
